@@ -1,0 +1,27 @@
+//go:build verif
+
+// Verification hook (build tag "verif" only): lets the checks of /verif observe
+// the state of the build directory after the prepare stage of the real main
+// package, i.e. with the task list registered by main.go's init().
+
+package main
+
+import (
+	"os"
+
+	"github.com/roddhjav/apparmor.d/pkg/logging"
+	"github.com/roddhjav/apparmor.d/pkg/prebuild/cli"
+)
+
+func init() {
+	// Files of a package are initialised in file name order: this runs after
+	// main.go's init() has registered the default tasks.
+	if os.Getenv("VERIF_PREPARE_ONLY") == "" {
+		return
+	}
+	cli.Configure()
+	if err := cli.Prepare(); err != nil {
+		logging.Fatal("%s", err.Error())
+	}
+	os.Exit(0)
+}
